@@ -128,6 +128,12 @@ def remove (σ : Sys) (s id : Nat) : Sys :=
   let p := σ.st s
   σ.set s { p with waiters := orphan id p.waiters }
 
+/-- The store process restarts: `newCommandPipeline` starts with counter 0 and an empty map, the
+clients of the old process image are gone; the state machine (and with it `alog`) survives. -/
+def restart (σ : Sys) (s : Nat) : Sys :=
+  let p := σ.st s
+  σ.set s { p with seq := 0, waiters := p.waiters.map fun x => { x with inMap := false } }
+
 /-- `ProposeCommand` up to the point where it blocks: draw an id, register, hand the entry to raft -/
 def propose (c : PipeCfg) (σ : Sys) (s w tag : Nat) : Sys :=
   let (σ₁, id) := nextId σ s
@@ -151,6 +157,7 @@ inductive Op where
   | propose (s w tag : Nat)
   | deliver (s : Nat) (batch : List RawEntry)
   | rm (s id : Nat)
+  | restart (s : Nat)
   deriving Repr
 
 def step (c : PipeCfg) (σ : Sys) : Op → Sys
@@ -158,6 +165,7 @@ def step (c : PipeCfg) (σ : Sys) : Op → Sys
   | .propose s w tag => propose c σ s w tag
   | .deliver s b => (b.filterMap cmdOf).foldl (applyOne c s) σ
   | .rm s id => remove σ s id
+  | .restart s => restart σ s
 
 def run (c : PipeCfg) (σ : Sys) (ops : List Op) : Sys := ops.foldl (step c) σ
 
@@ -167,10 +175,20 @@ def ValidOp (u : Bool) (σ : Sys) : Op → Prop
   | .propose s _ _ => u = true → ∀ e ∈ σ.proposed, e.id = (σ.st s).seq + 1 → e.proposer = s
   | .deliver _ b => ∀ e ∈ b.filterMap cmdOf, e ∈ σ.proposed   -- raft only delivers what was proposed
   | .rm _ _ => True
+  | .restart _ => False   -- the theorems about valid runs speak of one process lifetime per store
 
 def ValidRun (c : PipeCfg) (u : Bool) : Sys → List Op → Prop
   | _, [] => True
   | σ, op :: ops => ValidOp u σ op ∧ ValidRun c u (step c σ op) ops
+
+/-- validity that also admits store restarts (used to show what restarts break) -/
+def ValidOpR (σ : Sys) : Op → Prop
+  | .restart _ => True
+  | op => ValidOp false σ op
+
+def ValidRunR (c : PipeCfg) : Sys → List Op → Prop
+  | _, [] => True
+  | σ, op :: ops => ValidOpR σ op ∧ ValidRunR c (step c σ op) ops
 
 /-- everything raft delivered to store `s` during `ops`, batches concatenated -/
 def deliveredTo (s : Nat) : List Op → List RawEntry
